@@ -12,6 +12,13 @@ R2 exception-safe release: after `pre_disconnect` the matching
    nor the transport tables.
 R3 emptied containers are collected.
 R4 background-task registry entries are discarded when the task is done.
+R5 a refused (duplicate) admission leaves no membership behind.
+R6 room membership only for a connected client, nothing on failure: when
+   basic_enter_room is asked to add a sid without being handed its transport
+   id, the id it stores comes from a lookup in the namespace's all-clients
+   room that fails for an unknown sid (or is tested against None), and no
+   container has been created before that lookup (a failed entry leaves no
+   empty room behind).
 """
 import ast
 
@@ -443,7 +450,85 @@ def r5_admission_rollback(ctx):
                 'refuses a duplicate', where(f))
 
 
+def in_rooms(text):
+    return text.startswith('self.rooms[') or \
+        text.startswith('self.rooms.setdefault(')
+
+
+def r6_member_only(ctx):
+    m = ctx.model
+    f = m.method('BaseManager', 'basic_enter_room')
+    construct = 'BaseManager.basic_enter_room'
+    if f.params[1:] != ['sid', 'namespace', 'room', 'eio_sid']:
+        raise AnalysisError(construct + ' signature changed')
+    run = run_function(f, m)
+    n = 0
+    for p in run.paths:
+        if not p.normal:
+            continue
+        given = None
+        for c in p.conds:
+            if U(run.expand(c.atom)) == 'eio_sid is None':
+                given = not c.pol
+        if given is not False:
+            continue
+        stores = [e for e in p.events if e.kind == 'store' and
+                  isinstance(e.expr, ast.Subscript) and
+                  in_rooms(U(run.expand(e.expr))) and
+                  U(run.expand(e.expr.slice)) == 'sid']
+        if not stores:
+            continue
+        n += 1
+        e = stores[-1]
+        v = e.extra
+        d = run.symdefs.get(v.id) if isinstance(v, ast.Name) else None
+        x = strip_await(run.expand(v))
+        failing = isinstance(x, ast.Subscript) and U(x.slice) == 'sid' and \
+            U(x).startswith('self.rooms[') and '[None]' in U(x)
+        tested = any(not c.pol and isinstance(run.expand(c.atom),
+                                              ast.Compare) and
+                     U(c.atom) == '%s is None' % U(v) for c in p.conds) or \
+            any(c.pol and U(run.expand(c.atom)) in (
+                'sid in self.rooms[namespace][None]',
+                'self.is_connected(sid, namespace)') for c in p.conds)
+        ctx.check(failing or tested, construct, 'the transport id stored for '
+                  'the sid is proof that the sid is connected (failing '
+                  'lookup in rooms[namespace][None] or a None test)',
+                  key='member-proof', reason='the sid is added to the room '
+                  'with transport id %s, which exists (as None) for a sid '
+                  'that is not connected: a late enter_room() for a client '
+                  'that has gone leaves a membership nothing removes'
+                  % txt(x), where=where(f, e.node))
+        if failing and d is not None:
+            ns_known = any(c.pol and U(run.expand(c.atom)) ==
+                           'namespace in self.rooms' for c in p.conds)
+            early = []
+            for s in p.events[:d['at']]:
+                if s.kind == 'store' and in_rooms(U(run.expand(s.expr))):
+                    early.append(s)
+                elif s.kind == 'call' and s.callee() == 'setdefault' and \
+                        in_rooms(U(run.expand(s.expr))):
+                    top = U(run.expand(s.expr.func.value)) == 'self.rooms'
+                    if not (top and ns_known):
+                        early.append(s)
+            ctx.check(not early, construct, 'no container is created before '
+                      'the lookup that fails for an unknown sid',
+                      key='residue-on-failure', reason='%s is created (line '
+                      '%d) before the sid is looked up: when the lookup '
+                      'fails (client already gone) the empty container '
+                      'stays and keeps its namespace alive'
+                      % (txt(run.expand(early[0].expr)) if early else '',
+                         early[0].lineno if early else 0),
+                      where=where(f, early[0].node if early else None))
+    if not n:
+        ctx.bad(construct, 'no-join-path', 'no path adds a sid whose '
+                'transport id was not handed in', where(f))
+
+
 def run(ctx):
+    ctx.rule('C11.R6', 'room membership only for a connected client; a '
+             'failed entry creates nothing', floor=2)
+    r6_member_only(ctx)
     ctx.rule('C11.R5', 'a refused admission leaves no membership behind',
              floor=1)
     r5_admission_rollback(ctx)
